@@ -1,4 +1,4 @@
-import Gts.Model.Ops
+import Gts.Model.OpsAll
 open Gts
 
 partial def loop (hin : IO.FS.Stream) (hout : IO.FS.Stream) : IO Unit := do
